@@ -50,8 +50,12 @@ def batch(engine, check, n, workers, hashseed, seed=0):
 def main():
     n = int(sys.argv[1]) if len(sys.argv) > 1 else 120
     os.makedirs(os.path.join(V, ".work"), exist_ok=True)
-    plan = [("twin", c) for c in ("C01", "C03", "C05", "C11", "C18", "C13", "C09")] + \
-           [("compiled", c) for c in ("C01", "C05", "C11", "C19")]
+    plan = [("twin", c) for c in ("C01", "C02", "C03", "C04", "C05", "C10", "C11", "C16", "C18", "C13",
+                                  "C09", "C19", "C20")] + \
+           [("compiled", c) for c in ("C01", "C05", "C11", "C19", "C04")]
+    only = os.environ.get("VERIF_DET_ONLY")
+    if only:
+        plan = [(e, c) for e, c in plan if c in only.split(",")]
     bad = 0
     total = 0
     for engine, check in plan:
